@@ -37,8 +37,8 @@ _DEFAULTS = dict(Mode="fixed", TEnds={12}, MaxInterior=3, Dts={1, 2, 3, 4, 5}, D
 
 FIXED_INVS = ("TypeOK", "GridSteps", "OutputForm", "OutputFormIsGrid", "ChunkEq", "Tiling", "AllEmitted")
 FIXED_PROPS = ("TilingStep",)
-ADAPT_INVS = ("TypeOK", "Tiling", "MinStep", "MinStepSize", "AllEmitted", "OutputFormA")
-ADAPT_PROPS = ("AcceptRule", "RetrySmaller", "HalfStepValue", "TilingStep")
+ADAPT_INVS = ("TypeOK", "Tiling", "MinStep", "MinStepSize", "AllEmitted", "OutputFormA", "AcceptedOnly")
+ADAPT_PROPS = ("AcceptRule", "RetrySmaller", "HalfStepValue", "RejectKeepsState", "TilingStep")
 
 
 def loop_cfg(spec="Spec", invariants=(), properties=(), **consts):
@@ -106,7 +106,8 @@ FIXED_BUGS = {"noclip": ("GridSteps", "Tiling"), "toOutputs": ("GridSteps",), "s
               "swapW": ("OutputForm",)}
 RESTART_BUGS = {"dropExtra": ("ChunkEq",), "toOutputs": ("ChunkEq",)}
 ADAPT_BUGS = {"noclip": ("Tiling",), "noclamp": ("MinStepSize", "MinStep"), "acceptAll": ("AcceptRule",),
-              "noForce": ("AcceptRule",), "fullValue": ("HalfStepValue",), "neverShrink": ("RetrySmaller",)}
+              "noForce": ("AcceptRule",), "fullValue": ("HalfStepValue",), "neverShrink": ("RetrySmaller",),
+              "extraOnReject": ("RejectKeepsState",)}
 
 
 # ---------------------------------------------------------------------------------------------------------
@@ -169,6 +170,7 @@ class LoopRecorder:
     def __init__(self, bm=None, err_script=None, upd_script=None, max_trials=None):
         self.events = []
         self._starts = {}
+        self.inner_step = None
         self.bm = bm
         self.err_script = err_script
         self.upd_script = upd_script
@@ -201,6 +203,7 @@ class LoopRecorder:
         def integrate(solver, y0, ts, extra0):
             rec.events.append(("integrate", y0, ts, extra0))
             inner_step = solver.step
+            rec.inner_step = inner_step           # for the independent re-execution along the accepted steps
 
             def step(t0, t1, y, extra):
                 k = float(t0)
@@ -440,10 +443,11 @@ class RunAnalysis:
         self.drift = []
         self.max_interp_ulp = 0.0
         self.complete = False
+        self.reexec_detail = ""
 
 
 def analyse(events, bm_log, ts_f, ts_dtype, y0, dt, adaptive, dt_min=0.0, rtol=None, atol=None,
-            scripted_err=False, max_trials=None, aborted=False, norm_rtol=None):
+            scripted_err=False, max_trials=None, aborted=False, norm_rtol=None, reexec=None):
     """Turn the recorder's events of ONE integrate call into TraceLoop events (see spec/TraceLoop.tla)."""
     ra = RunAnalysis()
     T = ts_f[-1]
@@ -533,7 +537,7 @@ def analyse(events, bm_log, ts_f, ts_dtype, y0, dt, adaptive, dt_min=0.0, rtol=N
                     d["yin"] = "full"
                 else:
                     d["yin"] = "other"
-            d["_full"], d["_half2"], d["_yin"] = full, half2, yin
+            d["_full"], d["_half2"], d["_yin"], d["_steps"] = full, half2, yin, st
             prev = d
             trial_ev.append(d)
         for n, d in enumerate(trial_ev):
@@ -546,6 +550,22 @@ def analyse(events, bm_log, ts_f, ts_dtype, y0, dt, adaptive, dt_min=0.0, rtol=N
                 d["acc"] = bool(d["b"] == T and ys is not None)
             if d["acc"]:
                 acc_list.append((d["a"], d["b"], d["_half2"][5] if d["_half2"] is not None else None, d))
+        # the extra solver state each trial starts from: the initial one, the one produced by the last accepted
+        # second half step, or (after a rejection) the one the rejected trial started from
+        integ = [e for e in events if e[0] == "integrate"]
+        extra_init = integ[0][3] if integ else None
+        for n, d in enumerate(trial_ev):
+            xin = d["_full"][4] if d["_full"] is not None else None
+            if n == 0:
+                d["xin"] = "x0" if _extras_same(xin, extra_init) else "other"
+                continue
+            pv = trial_ev[n - 1]
+            m_half = pv["_half2"] is not None and _extras_same(xin, pv["_half2"][6])
+            m_same = pv["_full"] is not None and _extras_same(xin, pv["_full"][4])
+            if m_half and m_same:                       # indistinguishable (solver without extra state)
+                d["xin"] = "half" if pv["acc"] else "same"
+            else:
+                d["xin"] = "half" if m_half else "same" if m_same else "other"
         # mechanism (not property): ratio memory is reset exactly after a clamp
         for n, d in enumerate(trial_ev):
             exp_none = (n == 0) or (trial_ev[n - 1]["raw"] < dt_min)
@@ -611,7 +631,12 @@ def analyse(events, bm_log, ts_f, ts_dtype, y0, dt, adaptive, dt_min=0.0, rtol=N
     elif ys is not None:
         shape_ok = tuple(ys.shape) == (n_ts,) + tuple(y0.shape) and ys.dtype == y0.dtype
         wd_ok = True if max_trials is None else len(trial_ev) <= max_trials
-        ev.append(dict(k="end", wdOK=bool(wd_ok), shapeOK=bool(shape_ok)))
+        reexec_ok = True
+        if adaptive and reexec is not None:
+            reexec_ok, why = _reexecute(reexec, events, acc_list, y0, bm_log)
+            if not reexec_ok:
+                ra.reexec_detail = why
+        ev.append(dict(k="end", wdOK=bool(wd_ok), shapeOK=bool(shape_ok), reexecOK=bool(reexec_ok)))
         ra.complete = True
 
     # ---- ranks -------------------------------------------------------------------------------------------
@@ -649,6 +674,38 @@ def analyse(events, bm_log, ts_f, ts_dtype, y0, dt, adaptive, dt_min=0.0, rtol=N
     ra.accepted = [(a, b, y) for a, b, y, _ in acc_list]
     ra.trials = trial_ev
     return ra
+
+
+def _reexecute(step, events, acc_list, y0, bm_log):
+    """The property verbatim: the returned values are those of the two-half-step solution on the accepted steps.
+    Re-run the real solver.step along the accepted half steps only, from (y0, extra0), and compare every accepted
+    state, its extra state and the returned extra state bit for bit with what the loop produced."""
+    integ = [e for e in events if e[0] == "integrate"]
+    ret = [e for e in events if e[0] == "return"]
+    if not integ or not ret:
+        return True, ""
+    y, extra = y0, integ[0][3]
+    n_log = len(bm_log)
+    try:
+        with torch.no_grad():
+            for k, (a, b, y_b, d) in enumerate(acc_list):
+                full, half2 = d["_full"], d["_half2"]
+                h1 = [e for e in (d.get("_steps") or []) if e is not full and e is not half2]
+                if half2 is None or not h1:
+                    return True, ""                     # structure unknown: judged by the other clauses
+                h1 = h1[0]
+                y_m, extra_m = step(h1[1], h1[2], y, extra)
+                y, extra = step(half2[1], half2[2], y_m, extra_m)
+                if not _same(y.detach(), half2[5].detach()):
+                    return False, (f"accepted step {k} [{a}, {b}]: state differs from the re-executed two-half-step value by "
+                                   f"{float((y - half2[5]).abs().max()):.3e}")
+                if not _extras_same(extra, half2[6]):
+                    return False, f"accepted step {k} [{a}, {b}]: extra solver state differs from the re-executed one"
+        if not _extras_same(extra, ret[0][2]):
+            return False, "returned extra solver state is not the one of the last accepted step"
+        return True, ""
+    finally:
+        del bm_log[n_log:]                              # the re-execution's Brownian queries are not part of the run
 
 
 def _extras_same(e1, e2):
@@ -727,7 +784,8 @@ def beh_to_events(beh):
             ev.append(dict(k="trial", a=s["a"], m=s["m"], b=s["b"], q=[[s["a"], s["b"]], [s["a"], s["m"]], [s["m"], s["b"]]],
                            midOK=True, lenOK=True, s=s["s"], le1=s["est"] == "le1", normOK=True, argsOK=True,
                            raw=s["raw"], nxt=sch[n + 1]["s"] if n + 1 < len(sch) else -1, acc=s["acc"],
-                           yin={"first": "y0", "acc": "half", "rej": "same"}[prevk]))
+                           yin={"first": "y0", "acc": "half", "rej": "same"}[prevk],
+                           xin={"first": "x0", "acc": "half", "rej": "same"}[prevk]))
             prevk = "acc" if s["acc"] else "rej"
             if s["acc"]:
                 ev.extend(outs_for(s["a"], s["b"]))
@@ -735,7 +793,7 @@ def beh_to_events(beh):
         for n, (a, b) in enumerate(beh["acc"]):
             ev.append(dict(k="fstep", a=a, b=b, q=[[a, b]], lenOK=True, yin="y0" if n == 0 else "prev"))
             ev.extend(outs_for(a, b))
-    ev.append(dict(k="end", wdOK=True, shapeOK=True))
+    ev.append(dict(k="end", wdOK=True, shapeOK=True, reexecOK=True))
     hdr = dict(mode=beh["mode"], T=beh["T"], ts=ts, dt=beh["d"], mn=beh["mn"])
     return hdr, ev
 
@@ -994,7 +1052,7 @@ def _c14_scripted_one(c, seed, item):
             fails.append((dict(key, check="exception"), f"{type(e).__name__}: {e}", replay))
             return dict(fails=fails, trace=None, drift=[], steered=True, ntrials=0)
     ra = analyse(rec.events, bm.log, ts_f, p.dtype, p.y0, dt, True, dt_min=dt_min, rtol=1e-3, atol=1e-3,
-                 scripted_err=True, max_trials=limit, aborted=aborted)
+                 scripted_err=True, max_trials=limit, aborted=aborted, reexec=rec.inner_step)
     steered = rec.n_err > 0 and (mode != "exact" or calls["upd"] > 0)
     if mode == "exact" and steered:
         # trial by trial (a, midpoint, b); the order of the full step and the two half steps inside a trial is not
@@ -1019,6 +1077,7 @@ def _c14_scripted_one(c, seed, item):
             fails.append((dict(key, check="replay:outputs"),
                           f"ts={beh['ts']} schedule {replay['sched']}: output provenance {ra.out_prov} != spec {want_prov}", replay))
     return dict(fails=fails, trace=(ra.hdr, cap_trace(ra.ev)[0]), drift=ra.drift if mode == "classes" else [], steered=steered,
+                detail=ra.reexec_detail, nrej=sum(1 for d in ra.trials if not d["acc"]),
                 ntrials=len(ra.trials), key=key, replay=replay)
 
 
@@ -1060,6 +1119,13 @@ def natural_problems(seed, quick):
         rt, at = tols[(k + seed) % 3] if dtp == "float64" else (1e-2, 1e-2)
         add(f"example-{lab}-{nz}-{dtp}", lab, nz, dtp, ("example",), [0.0, 0.3, 0.55, 1.0], 0.25, rt, at,
             2.0 ** -7 if dtp == "float64" else 2.0 ** -5)
+    # a solver with extra state (f, g, z) and many rejections: a rejected trial must not advance the extra state
+    add("osc-revheun-0.001", "reversible_heun", "diagonal", "float64", ("linear", 0.25, 0.125, 24.0), [0.0, 0.4, 1.0], 0.3,
+        1e-3, 1e-3, 1e-3, d=2)
+    add("stiff-revheun-0.001", "reversible_heun", "additive", "float64", ("linear", 40.0, 0.5, 0.0), [0.0, 0.21, 0.5], 0.25,
+        1e-3, 1e-3, 2.0 ** -9)
+    add("example-revheun-scalar-0.001", "reversible_heun", "scalar", "float64", ("example",), [0.0, 0.3, 1.0], 0.5, 1e-3, 1e-3,
+        2.0 ** -8)
     # dt_min hit on purpose: coarse dt_min with a tight tolerance
     add("dtmin-hit-euler", "euler", "diagonal", "float64", ("linear", 20.0, 1.0, 0.0), [0.0, 0.33, 1.0], 0.25, 1e-4, 1e-4, 2.0 ** -4)
     add("dtmin-hit-revheun", "reversible_heun", "diagonal", "float64", ("example",), [0.0, 0.5, 1.0], 0.5, 1e-4, 1e-6, 2.0 ** -3)
@@ -1114,7 +1180,7 @@ def c14_natural(job):
         except Exception as e:  # noqa
             return dict(fails=[(dict(key, check="exception"), f"{pr['name']}: {type(e).__name__}: {e}", pr)], trace=None)
     ra = analyse(rec.events, bm.log, ts_f, p.dtype, p.y0, pr["dt"], True, dt_min=pr["dt_min"], rtol=pr["rtol"],
-                 atol=pr["atol"], max_trials=limit, aborted=aborted)
+                 atol=pr["atol"], max_trials=limit, aborted=aborted, reexec=rec.inner_step)
     tr = ra.trials
     stats = dict(trials=len(tr), accepted=sum(d["acc"] for d in tr), rejected=sum(not d["acc"] for d in tr),
                  forced_at_dt_min=sum(1 for d in tr if d["acc"] and not d["le1"]),
@@ -1124,7 +1190,8 @@ def c14_natural(job):
     ev, cut = cap_trace(ra.ev)
     stats["trace_cut"] = cut
     stats["terminated"] = not aborted
-    return dict(fails=[], trace=(ra.hdr, ev), drift=ra.drift, stats=stats, key=key, name=pr["name"])
+    return dict(fails=[], trace=(ra.hdr, ev), drift=ra.drift, stats=stats, key=key, name=pr["name"],
+                detail=ra.reexec_detail)
 
 
 def tolerance_exploration(seed, n_paths=6):
